@@ -202,6 +202,12 @@ def plan(tier, seed):
                 cases.append({"fam": "syn", "cls": cls, "B": b, "n": n, "n2": n, "sig": SIGMODES[r % len(SIGMODES)], "flag": "auto",
                               "nmodes": n - 1, "fmt": ["csc", "csr", "coo"][r % 3], "sort": SORTERS[r % 3], "steps": 2,
                               "id": int(rng.integers(0, 2 ** 31))})
+    # ---- generalised pencils whose two matrices have identical sparsity structure but different entry order inside the columns
+    for r in range(12 if quick else 120):
+        n = int(rng.integers(6, 31 if quick else 81))
+        cases.append({"fam": "syn", "cls": "rsym", "B": "spd", "samepattern": True, "n": n, "n2": n, "sig": ["below", "inside-low", "midpoint"][r % 3],
+                      "flag": "auto", "nmodes": int(rng.integers(1, min(kmax, n - 3) + 1)), "fmt": "csc", "sort": SORTERS[r % 3], "steps": 2,
+                      "id": int(rng.integers(0, 2 ** 31))})
     # ---- positive definite pencils (K, M both SPD) with a shift: the documented `mode` keyword (buckling / Cayley) can be used
     for r in range(16 if quick else 160):
         n = int(rng.integers(8, 41 if quick else 121))
@@ -482,6 +488,22 @@ def _run_syn(case, ctx, pym):
             sa_sb["a"], sa_sb["b"] = 10.0 ** rng.uniform(-3, 3), 10.0 ** rng.uniform(-2, 2)
         n = case["n"] if step != 1 else case["n2"]
         p = ref.sparse_problem(rng, case["cls"], n, case["B"], case["fmt"], sa_sb["a"], sa_sb["b"])
+        if case.get("samepattern") and p["B"] is not None:
+            # a mass-like matrix with exactly the sparsity structure of A (same nnz, same column counts) whose entries are stored in a
+            # different order inside the columns (what a sparse product or a hand-built csc matrix gives): same matrix, other layout
+            Ad = p["A"].toarray()
+            pat = (Ad != 0) | np.eye(n, dtype=bool)
+            R = rng.uniform(0.0, 1.0, (n, n))
+            Bd = ((R + R.T) * 0.05 / n) * pat + np.diag(rng.uniform(1.0, 2.0, n))
+            Ac = sps.csc_matrix(np.where(pat, np.where(Ad != 0, Ad, 1e-300), 0.0))
+            Ac.data[np.abs(Ac.data) <= 1e-300] = 0.0                # explicit zeros keep the structure identical
+            Bc = sps.csc_matrix(np.where(pat, np.where(Bd != 0, Bd, 1e-300), 0.0))
+            for j in range(n):                                       # reverse the entry order inside every column of B
+                a_, b_ = Bc.indptr[j], Bc.indptr[j + 1]
+                Bc.indices[a_:b_] = Bc.indices[a_:b_][::-1].copy()
+                Bc.data[a_:b_] = Bc.data[a_:b_][::-1].copy()
+            Bc.has_sorted_indices = False
+            p["A"], p["B"] = Ac, Bc
         if case.get("pd"):
             # positive definite A (a stiffness matrix): shifted by a multiple of the identity, pattern and symmetry kept
             Ad = p["A"].toarray()
